@@ -47,7 +47,7 @@ def run(run):
         look += special_cells(rng, r, None)
     li = core.impl_only(run, look)
     extra = [int(a.split()[1]) for a in li if a.startswith("ok ")]
-    rnd = [gen.rand_cell(rng, rng.randint(rmax + 1, 29)) for _ in range(250 if quick else 6000)]
+    rnd = [gen.rand_cell(rng, rng.randint(rmax + 1, 29)) for _ in range(run.n(250, 6000))]
     cells = cells + extra + rnd
     breq = []
     for c in cells:
